@@ -49,6 +49,11 @@ def main(argv):
         logging.disable(logging.CRITICAL)
     if cfg.get('warnings') == 'error':
         warnings.simplefilter('error')      # python -W error
+        # -bb makes CPython warn about str(bytes) / bytes == str; only the
+        # library is held to that, not the harness' own formatting
+        warnings.filterwarnings('ignore', category=BytesWarning)
+        warnings.filterwarnings('error', category=BytesWarning,
+                                module=r'pamqp(\..*)?$')
     else:
         warnings.simplefilter('ignore')
 
